@@ -269,6 +269,9 @@ class Sim:
             s.upstream = FakeConn('mgr-up', self.log)
             s.sel.register(s.upstream, 1, D.ABOVE)
             s.most_recent_read_submit = None
+        from harness import runtime_sim as _rs
+        import bqskit.runtime.base as _bmod
+        _rs.autofill(s, [(_bmod.ServerBase, ('__init__',)), (cls, ('__init__',))])
         # connect_to_managers / spawn_workers
         if employees is None:
             employees = [(1, False)] * nemployees
@@ -1276,6 +1279,8 @@ class Net:
             w.read_receipt_mutex = Lock()
             w._mailbox_mutex = Lock()
             w.incoming_thread = None
+            from harness import runtime_sim as _rs
+            _rs.autofill(w, [(Worker, ('__init__',))])
             self.workers.append(w)
             self.links.append((parent, parent.emp_conns[slot], w, w._conn))
         self.client_conn = ClientConn('client', log, self)
